@@ -155,12 +155,51 @@ def state_error(ref, lists):
     return None
 
 
+def offs_variants(cases, every=1):
+    """Lists threaded through different node members (different `off`): cstl_dlist_swap must exchange the
+    offsets too, and concat between lists of different offsets is a documented no-op that the model does not
+    represent, so cases containing such a concat (offsets tracked through swaps) are left out."""
+    out = []
+    n = 0
+    for c in cases:
+        nl = 1
+        for h in c.header:
+            w = h.split()
+            if w[0] == 'nlists':
+                nl = int(w[1])
+            if w[0] == 'offs':
+                nl = 0
+        if nl < 2 or not any(o.split()[0] == 'swap' for o in c.ops):
+            continue
+        offs = [i % 2 for i in range(nl)]
+        ok = True
+        for o in c.ops:
+            w = o.split()
+            if w[0] == 'swap':
+                a, b = int(w[1]), int(w[2])
+                if a < nl and b < nl:
+                    offs[a], offs[b] = offs[b], offs[a]
+            elif w[0] == 'concat':
+                a, b = int(w[1]), int(w[2])
+                if a < nl and b < nl and offs[a] != offs[b]:
+                    ok = False
+                    break
+            elif w[0] == 'foreach' and len(w) >= 6 and w[4] == '2':
+                pass        # erase + push onto another list: uses each list's own member, fine
+        if not ok:
+            continue
+        n += 1
+        if n % every == 0:
+            out.append(Case(c.name + 'o', c.header + ['offs ' + ' '.join(str(i % 2) for i in range(nl))], c.ops, c.origin))
+    return out
+
+
 class C12(Spec):
     pid = 'C12'
     component = 'dlist'
     driver = 'dlist'
     lib_srcs = ['dlist.c']
-    header_words = ('keys', 'nlists', 'cmpmode', 'vsign')
+    header_words = ('keys', 'nlists', 'cmpmode', 'vsign', 'offs')
     vsign_every = 2
     rule = ('cases = corpus + one case per edge of the breadth-first closure of the Coq model over a small scope '
             '(shortest path to the state + the operation; states identified by sizes and both raw link walks of every '
@@ -246,7 +285,9 @@ class C12(Spec):
             if any(o.split()[0] in ('sort', 'find') for o in c.ops):
                 extra.append(Case(c.name + 'd', c.header + ['cmpmode 1'], c.ops, c.origin))
         st['cmpmode1_replays'] = len(extra)
-        return cases + extra, st
+        offv = offs_variants(cases, every=3)
+        st['offs_replays'] = len(offv)
+        return cases + extra + offv, st
 
     def random_cases(self, tier, seed):
         rnd = random.Random(seed * 7919 + 12)
@@ -315,7 +356,7 @@ class C12(Spec):
                     emit('%s %d %d' % (k, l, rnd.randrange(nl)))
             cases.append(Case('rnd%d' % ci, ['keys ' + ' '.join(map(str, keys)), 'nlists %d' % nl,
                                              'cmpmode %d' % rnd.choice([0, 1, 2])], ops, 'random'))
-        return cases
+        return cases + offs_variants(cases, every=1)
 
 
 SPEC = C12()
